@@ -291,6 +291,63 @@ func confirmAndMinimise(b builds, cfg tierCfg, viol *proto.Record) *proto.Record
 	// 3b. re-search: with fewer tasks the recorded schedule usually no longer fits; look
 	// for a fresh schedule of the reduced workload (8 processes x 25 seeded schedules)
 	if cur.Build != "ref" && !probabilistic {
+		// crowds first: drop half, a quarter, ... of the tasks at once and look for a fresh
+		// schedule of what is left (a defect that needs seventeen callers is never found
+		// by removing one task at a time from sixty under the recorded schedule)
+		liveTasks := func(r *proto.Record) []int {
+			var idx []int
+			for t := range r.Run.Tasks {
+				if len(r.Run.Tasks[t].Ops) > 0 {
+					idx = append(idx, t)
+				}
+			}
+			return idx
+		}
+		if n := len(liveTasks(cur)); n > 8 {
+			m.deadline = m.deadline.Add(120 * time.Second)
+			for chunk := (n + 1) / 2; chunk >= 1 && !m.exhausted(); {
+				idx := liveTasks(cur)
+				if len(idx) <= 4 {
+					break
+				}
+				found := false
+				var cands []*proto.Record
+				for s0 := 0; s0 < len(idx); s0 += chunk {
+					e := s0 + chunk
+					if e > len(idx) {
+						e = len(idx)
+					}
+					c := cloneRec(cur)
+					for _, t := range idx[s0:e] {
+						c.Run.Tasks[t].Ops = nil
+					}
+					cands = append(cands, c)
+				}
+				// under the recorded schedule first (cheap, all candidates at once) ...
+				if i, _ := m.firstHolding(cands); i >= 0 {
+					cur = cands[i]
+					found = true
+				}
+				// ... then with a fresh schedule
+				for i := 0; i < len(cands) && !found && !m.exhausted(); i++ {
+					if f := m.search(cands[i]); f != nil {
+						cur = f
+						found = true
+					}
+				}
+				if found {
+					if l := len(liveTasks(cur)); chunk > (l+1)/2 {
+						chunk = (l + 1) / 2
+					}
+					continue
+				}
+				if chunk == 1 {
+					break
+				}
+				chunk = (chunk + 1) / 2
+			}
+			cur = m.shrinkEvents(cur)
+		}
 		for changed := true; changed && !m.exhausted(); {
 			changed = false
 			nt, _, _ := countOps(cur)
